@@ -77,6 +77,7 @@ pub fn dht_core_engine_with_validation_mode(
     crate::dht::core_engine::DhtCoreEngine::new_with_validation_mode(node_id, mode)
 }
 pub mod c05;
+pub mod c18;
 /// C13: the engine as `DhtNetworkManager::init_dht_core` builds it (LogOnly
 /// close-group validation), whose constructor is crate-private.
 pub fn core_engine_log_only(
